@@ -152,6 +152,30 @@ func runC18(c *fw.Case) {
 		c.Count("root_build_failed", 1)
 		return
 	}
+	if rng.Intn(4) == 0 {
+		// upper-case both columns in place: the built-in enum ToUpper maps the value table, which may leave an enum
+		// whose value table holds the same string more than once
+		var up qframe.QFrame
+		pv, _ := fw.Guard(func() {
+			up = root.QF.Apply(qframe.Instruction{Fn: "ToUpper", DstCol: "e", SrcCol1: "e"},
+				qframe.Instruction{Fn: func(x *string) *string {
+					if x == nil {
+						return nil
+					}
+					u := strings.ToUpper(*x)
+					return &u
+				}, DstCol: "s", SrcCol1: "s"})
+		})
+		if pv == nil && up.Err == nil {
+			if sh2, e := model.ObserveGuard(up); e == nil && sh2.Col("e") != nil && sh2.Col("e").Kind == model.KEnum {
+				root = &model.Root{Shadow: sh2, QF: up, Path: root.Path, Ops: append(root.Ops, "Apply(ToUpper e, upper s)"), Shape: root.Shape}
+				c.Count("frames_with_uppercased_enum", 1)
+				for i, d := range distinct {
+					distinct[i] = strings.ToUpper(d)
+				}
+			}
+		}
+	}
 	sh := root.Shadow
 	var tried []string
 	c.DescribeLazy(func() interface{} {
